@@ -134,9 +134,9 @@ class Case:
             self.model(o["m"]).get_spec(self.value(o["v"])).path = PATHS[o["p"]]
         elif k == "delspec":
             self.model(o["m"]).del_spec(self.value(o["v"]))
-        elif k == "delspace":            # only in witnesses of recorded defects
+        elif k == "delspace":            # del model.S0 (ModelImpl.del_attr: the space of that name, else the reference)
             delattr(self.model(o["m"]), NAMES[o["s"]])
-        elif k == "newscalarcells":      # only in witnesses
+        elif k == "newscalarcells":
             self.owner(o["m"], o["s"]).new_cells(NAMES[o["n"]], formula="lambda: 1")
         else:
             raise RuntimeError("unknown op %r" % (o,))
